@@ -10,6 +10,7 @@
                 failedids s = the ids those failed calls contained
      finished s (id, result of the sender chain) once the queue's Done callback has run
      store s    persistent queue: ids whose body is in the storage *)
+From Coq Require Import Permutation.
 From Verif Require Import Common.Base C03.Model C03.Proofs C03.Proofs2 C03.Proofs3.
 
 (* ---- in-memory queue ---------------------------------------------------------------------------
@@ -126,6 +127,29 @@ Theorem shutdown_terminates_refuted : exists c ls s cyc s',
   cyc <> [] /\ run c s cyc = Some s' /\ ctl s' = ctl s /\ mu s' = mu s /\ length (begun s') = S (length (begun s)).
 Proof. exact refuted_l. Qed.
 
+(* ---- storage errors while the queue is stopped -----------------------------------------------------
+   [LQueueStop err]: persistentQueue.Shutdown may fail (queue-size snapshot not written, Close failed).  All
+   theorems above quantify over [err]; this one states that the error changes nothing but Shutdown's result:
+   the consumers are still joined, the batcher is still shut down, the wrapped exporter still stopped. *)
+Theorem queue_stop_error_only_sets_the_result : forall c s s1 s2,
+  step c s (LQueueStop true) = Some s1 -> step c s (LQueueStop false) = Some s2 ->
+  s2 = set_shuterr false s1 /\ shuterr s1 = true /\ pc s1 = PQStopped /\ qstop s1 = true.
+Proof. exact queue_stop_error_l. Qed.
+
+(* ---- a stored request split by max_size into several export calls --------------------------------------
+   (refCountDone + persistentQueue.onDone, [combine]/[kept_after] in Model.v; not part of the LTS, whose
+   requests are never split.)  The request stays in the storage iff at least one of its parts was only
+   interrupted by the shutdown — whatever the other parts returned and in whatever order the parts report;
+   it is reported as success iff every part succeeded. *)
+Theorem split_request_kept_iff_some_part_interrupted : forall rs, In RShutdown rs <-> kept_after rs = true.
+Proof. exact kept_iff_l. Qed.
+
+Theorem split_request_verdict_order_independent : forall rs rs', Permutation rs rs' -> combine rs = combine rs'.
+Proof. exact combine_perm. Qed.
+
+Theorem split_request_success_iff_all_parts : forall rs, combine rs = RSuccess <-> forall r, In r rs -> r = RSuccess.
+Proof. exact combine_success. Qed.
+
 (* ---- the model that the correspondence run executes is this LTS ---------------------------------- *)
 Theorem scheduler_runs_are_runs : forall hc acts ls evss s,
   exec hc [] (init (h_cfg hc)) acts = Some (ls, evss, s) -> run (h_cfg hc) (init (h_cfg hc)) ls = Some s.
@@ -142,4 +166,8 @@ Print Assumptions partial_batch_flushed.
 Print Assumptions final_flush_takes_current.
 Print Assumptions shutdown_terminates_partial.
 Print Assumptions shutdown_terminates_refuted.
+Print Assumptions queue_stop_error_only_sets_the_result.
+Print Assumptions split_request_kept_iff_some_part_interrupted.
+Print Assumptions split_request_verdict_order_independent.
+Print Assumptions split_request_success_iff_all_parts.
 Print Assumptions scheduler_runs_are_runs.
